@@ -48,7 +48,7 @@ fn atom_items(ctx: &Ctx) -> Vec<Item> {
     // allocation-relevant atoms: everything but the pure operator matrix, which is thinned
     let all = c01::all_items();
     let stride = if ctx.thorough() { 1 } else { 3 };
-    let mut out = Vec::new();
+    let mut out = crate::holders::items();
     for (i, it) in all.into_iter().enumerate() {
         let op_matrix = it.id.starts_with("bin.") || it.id.starts_with("un.") || it.id.starts_with("conv.") || it.id.starts_with("math.");
         if op_matrix {
@@ -88,7 +88,7 @@ fn schedules_for(steps: u64, exhaustive_points: bool) -> Vec<Sched> {
     if steps <= 4000 {
         v.push(Sched::EveryStep);
     }
-    if exhaustive_points && steps <= 400 {
+    if exhaustive_points && steps <= 2500 {
         for s in 0..steps {
             v.push(Sched::At(s));
         }
@@ -252,7 +252,11 @@ impl Check for C02 {
                 .collect();
             // every individual collection point for a subset of the cells
             let step = if ctx.thorough() { 4 } else { 16 };
-            let (ex, rest): (Vec<(usize, Prog)>, Vec<(usize, Prog)>) = progs.into_iter().enumerate().partition(|(i, _)| i % step == 0);
+            let hold_step = if ctx.thorough() { 1 } else { 5 };
+            let (ex, rest): (Vec<(usize, Prog)>, Vec<(usize, Prog)>) = progs
+                .into_iter()
+                .enumerate()
+                .partition(|(i, p)| if p.ids[0].starts_with("hold") { (i + ctx.seed as usize) % hold_step == 0 } else { i % (step * 4) == 0 });
             let ex: Vec<Prog> = ex.into_iter().map(|x| x.1).collect();
             let rest: Vec<Prog> = rest.into_iter().map(|x| x.1).collect();
             run_unit_progs(&mut r, &ex, true, &atom_family);
@@ -283,7 +287,7 @@ impl Check for C02 {
             let p = corpus::b_program(parts[1].parse().unwrap_or(0), parts[2].parse().unwrap_or(0));
             run_unit_progs(&mut r, &[Prog { ids: vec![p.id.clone()], src: p.src.clone(), batch: false }], true, &|id: &str| id.to_string());
         } else {
-            let items: Vec<Item> = c01::all_items().into_iter().filter(|i| ids.contains(&i.id)).collect();
+            let items: Vec<Item> = c01::all_items().into_iter().chain(crate::holders::items()).filter(|i| ids.contains(&i.id)).collect();
             let prog = Prog { ids: items.iter().map(|i| i.id.clone()).collect(), src: c01::batch_program(&items), batch: true };
             run_unit_progs(&mut r, &[prog], items.len() == 1, &atom_family);
         }
